@@ -212,6 +212,11 @@ def lis_source(variant):
                          sp_units='FEET', d_units='FEET')
     items = ['file_head'] + (['cons'] if variant.get('cons', True) else []) + [['pass', spec, 0]] + ['file_tail']
     specs = [spec]
+    if variant.get('empty_first'):
+        # a format specification that no data record follows, and after it - in the same logical file - a log pass with frames
+        spec0 = c06.base_spec([c06.chan('DEPT', 68, units='FEET'), c06.chan('TENS', 68, units='LB  ')], 0, 2, indirect=0, updown=1,
+                              sp_units='FEET', d_units='FEET')
+        items = items[:-2] + [['pass', spec0, 2]] + items[-2:]
     if variant.get('two'):
         spec2 = c06.base_spec([c06.chan('DEPT', 68, units='FEET'), c06.chan('CALI', 49, units='IN  ')], variant.get('n1', 4), 2,
                               indirect=0, updown=1, sp_units='FEET', d_units='FEET')
@@ -607,6 +612,10 @@ def gen_cases(tier, fmt):
                     for two in (False, True):
                         yield {'variant': dict({'two': True} if two else {}, same_index_first=first), 'opts': dict(DEFAULT, sel=sel, channels=chs)}
     if fmt == 'lis':
+        # a format specification without data records in front of a log pass with frames (same logical file): one LAS file, for the pass with frames
+        for chs in ([], ['GR  ']):
+            for extra in ({}, {'two': True}):
+                yield {'variant': dict(extra, empty_first=True), 'opts': dict(DEFAULT, channels=chs)}
         for chs in ([], ['GR  '], ['GR'], ['SP  ', 'GR  '], ['SP']):
             for extra in ({}, {'indirect': 68}):
                 yield {'variant': dict(extra, nul=True), 'opts': dict(DEFAULT, channels=chs)}
